@@ -71,7 +71,8 @@ def pattern_encoder_cannot_decode_declared_value(case, v):
     """KF06: a pattern encoder accepted the settings but raises 'Pattern encoder should never (automatically) impute'
     for declared values (settings with existence patterns that absent nodes or override degree lists)"""
     d = _d(v)
-    return d.get('group') == 'pattern' and 'Pattern encoder should never' in (d.get('msg') or v.get('detail', ''))
+    return 'Pattern encoder should never' in (d.get('msg') or v.get('detail', '')) and \
+        d.get('group', 'pattern') == 'pattern'
 
 
 def pattern_encoder_single_option_variable(case, v):
@@ -82,3 +83,150 @@ def pattern_encoder_single_option_variable(case, v):
     msg = d.get('msg') or v.get('detail', '')
     return 'All design variables must have at least 2 options' in msg and \
         (d.get('combo', [''])[0] == 'pattern' or 'set_settings' in v.get('sig', ''))
+
+
+# ---- choice-constraint placement helpers (spec level, independent of adsg_core) ----
+
+def _succ(spec, with_choices=True):
+    succ = {}
+    for u, v in spec.get('edges', []):
+        succ.setdefault(u, []).append(v)
+    if with_choices:
+        for c in spec.get('choices', []):
+            succ.setdefault(c['origin'], []).extend(c['opts'])
+    return succ
+
+
+def _reach(succ, seeds):
+    seen = set(seeds)
+    todo = list(seeds)
+    while todo:
+        u = todo.pop()
+        for w in succ.get(u, []):
+            if w not in seen:
+                seen.add(w)
+                todo.append(w)
+    return seen
+
+
+def _choice_constraints(spec):
+    ch = {c['id']: c for c in spec.get('choices', [])}
+    for con in spec.get('cons', []):
+        members = sorted(m for m in con['on'] if m in ch)
+        if len(members) >= 2:
+            yield con, [ch[m] for m in members]
+
+
+def _initially_active(spec):
+    """Choices whose originating node is confirmed before any real decision: closure of the start nodes under
+    derivation edges and single-option (forced) choices"""
+    succ = _succ(spec, with_choices=False)
+    for c in spec.get('choices', []):
+        if len(c['opts']) == 1:
+            succ.setdefault(c['origin'], []).append(c['opts'][0])
+    perm = _reach(succ, spec['start'])
+    return {c['id'] for c in spec.get('choices', []) if c['origin'] in perm}
+
+
+def _activation_against_id_order(spec, types):
+    full = _succ(spec, with_choices=True)
+    init = _initially_active(spec)
+    for con, members in _choice_constraints(spec):
+        if con['type'] not in types:
+            continue
+        for i, a in enumerate(members):
+            for b in members[i+1:]:  # a has the lower id
+                # activation follows the id order only if a is active from the start or b sits below an option of a
+                if a['id'] not in init and b['origin'] not in _reach(full, a['opts']):
+                    return True
+    return False
+
+
+def complete_ordering_constraint_against_id_order(case, v):
+    """KF08: COMPLETE encoder, UNORDERED / UNORDERED_NOREPL constraint whose choices become active in another order than
+    their id order (some lower-id constrained choice is not active from the start while a higher-id one does not sit
+    below one of its options, so it can be activated earlier or independently): the ordering is applied in activation order: duplicated / missing architectures, NoOptionError while decoding"""
+    spec = _spec(case)
+    enc = case.get('enc') or case.get('mode') or _d(v).get('mode')
+    if enc not in ('COMPLETE', None):
+        return False
+    return _activation_against_id_order(spec, ('UNORDERED', 'UNORDERED_NOREPL'))
+
+
+def fast_linked_first_choice_conditional(case, v):
+    """KF09: FAST encoder collapses LINKED selection choices into the variable of the lowest-id choice; when that choice
+    is not active from the start the other linked choices are pinned to option 0 in branches where it is inactive"""
+    spec = _spec(case)
+    enc = case.get('enc') or case.get('mode') or _d(v).get('mode')
+    if enc != 'FAST':
+        return False
+    init = _initially_active(spec)
+    for con, members in _choice_constraints(spec):
+        if con['type'] == 'LINKED' and members[0]['id'] not in init:
+            return True
+    return False
+
+
+def linked_dv_first_member_absent(case, v):
+    """KF10: LINKED design-variable nodes: the variable belongs to the first member (sort order); when that node is absent
+    from an architecture the other, existing members receive no value"""
+    d = _d(v)
+    members = sorted(d.get('all_members') or [])
+    return bool(members) and members[0] not in (d.get('present') or [])
+
+
+# ---- connection / grouping helpers ----
+
+def _groups(spec):
+    for cc in spec.get('conns', []):
+        for side in ('src', 'tgt'):
+            for it in cc[side]:
+                if isinstance(it, dict):
+                    yield cc, side, it
+
+
+def _open_ended(spec, name):
+    d = spec['nodes'][name].get('deg')
+    return isinstance(d, dict) and d.get('max') is None
+
+
+def grouping_minimum_unreachable(case, v):
+    """KF11: a connector grouping node with an open-ended member: the degree override of an existence pattern is
+    range(sum of minima, reachable maximum + 1), which is an empty list when the minima exceed what the opposite side can
+    supply; building the matrix generator then raises ValueError (max of empty sequence) instead of marking the scenario
+    infeasible"""
+    spec = _spec(case)
+    msg = _msg(v)
+    return 'max() iterable argument is empty' in msg and any(
+        any(_open_ended(spec, m) for m in g['members']) for _, _, g in _groups(spec))
+
+
+def open_ended_group_parallel_limit(case, v):
+    """KF12: a grouping node with an open-ended member gets a finite degree override list per existence pattern at
+    processor level; the finite maximum raises the automatic parallel-connection limit above the limit that the same
+    graph uses at DSG level (iter_conn_edges / validate_conn_edges): the processor decodes connection sets the DSG API
+    rejects"""
+    spec = _spec(case)
+    return any(any(_open_ended(spec, m) for m in g['members']) for _, _, g in _groups(spec))
+
+
+def pattern_encoder_impute_at_graph_level(case, v):
+    """KF06 at graph level: the selected pattern encoder raises 'Pattern encoder should never (automatically) impute'"""
+    return 'Pattern encoder should never' in _msg(v)
+
+
+def _permanent_nodes(spec):
+    return _reach(_succ(spec, with_choices=False), spec['start'])
+
+
+def grouping_degree_on_shared_node(case, v):
+    """KF13: the aggregated degree of a ConnectorDegreeGroupingNode is stored on the node object that all graphs derived
+    from one model share; it is recomputed whenever any graph is constructed. An instance created earlier (or served from
+    a cache) is then judged with the degrees of a later graph: feasible instances flip to infeasible. Needs a grouping
+    node with a member that does not exist in every architecture."""
+    spec = _spec(case)
+    perm = _permanent_nodes(spec)
+    for _, _, g in _groups(spec):
+        if any(m not in perm for m in g['members']):
+            return True
+    return False
